@@ -349,10 +349,50 @@ Definition key_ok (k : list (string * value)) : bool := forallb (fun kv => key_v
 Lemma reader_one_obj c kvs : reader [c] (VObj kvs) = Ok (column c (VObj kvs)).
 Proof. reflexivity. Qed.
 
-Lemma group_key_obj cols kvs : group_key cols (VObj kvs) = Ok (key_of cols (VObj kvs)).
+(* a flat grouping column is read like a column reference *)
+Lemma key_reader_flat c v : key_reader [KKey c] v = reader [c] v.
+Proof. reflexivity. Qed.
+
+Lemma key_value_gcol c r : key_value (gcol c) r = column c r.
+Proof. destruct r; reflexivity. Qed.
+
+(* the engine reads a grouping column that has a value (Spec.GroupSpec.path_value) to exactly that value *)
+Lemma key_reader_path_value p : forall v x, path_value p v = Some x -> key_reader p v = Ok x.
 Proof.
-  unfold group_key, key_of. induction cols as [|c cs IH]; cbn [mapM map]; [reflexivity|].
-  rewrite reader_one_obj. cbn [bind]. rewrite IH. reflexivity.
+  induction p as [|st rest IH]; intros v x H.
+  - cbn in H. inversion H. reflexivity.
+  - destruct st as [k|i]; destruct v as [|b|f|t|l|kvs]; cbn [path_value] in H;
+      try discriminate; try (inversion H; reflexivity).
+    + cbn [key_reader]. apply IH. exact H.
+    + cbn [key_reader].
+      destruct ((0 <=? i)%Z && (i <? Z.of_nat (List.length l))%Z) eqn:Hr; [|discriminate].
+      apply andb_true_iff in Hr. destruct Hr as [H0 H1].
+      apply Z.leb_le in H0. apply Z.ltb_lt in H1.
+      replace (i =? -1)%Z with false by (symmetry; apply Z.eqb_neq; lia).
+      replace (i <? 0)%Z with false by (symmetry; apply Z.ltb_ge; lia).
+      replace (Z.of_nat (List.length l) <=? i)%Z with false by (symmetry; apply Z.leb_gt; lia).
+      cbn [orb]. destruct (nth_error l (Z.to_nat i)) as [y|]; [|discriminate].
+      apply IH. exact H.
+Qed.
+
+Lemma group_key_obj cols kvs :
+  row_ok cols (VObj kvs) = true -> group_key cols (VObj kvs) = Ok (key_of cols (VObj kvs)).
+Proof.
+  unfold row_ok, group_key, key_of. induction cols as [|c cs IH]; cbn [mapM map forallb]; [reflexivity|].
+  intros H. apply andb_true_iff in H. destruct H as [Hc Hcs].
+  unfold col_ok in Hc. unfold key_value.
+  destruct (path_value (gk_path c) (VObj kvs)) as [x|] eqn:Hp; [|discriminate].
+  rewrite (key_reader_path_value _ _ _ Hp). cbn [bind]. rewrite (IH Hcs). reflexivity.
+Qed.
+
+(* readable is enough for the key to be read (whatever kind of value it is) *)
+Lemma group_key_readable cols r :
+  readable cols r = true -> group_key cols r = Ok (key_of cols r).
+Proof.
+  unfold readable, group_key, key_of. induction cols as [|c cs IH]; cbn [mapM map forallb]; [reflexivity|].
+  intros H. apply andb_true_iff in H. destruct H as [Hc Hcs]. unfold key_value.
+  destruct (path_value (gk_path c) r) as [x|] eqn:Hp; [|discriminate].
+  rewrite (key_reader_path_value _ _ _ Hp). cbn [bind]. rewrite (IH Hcs). reflexivity.
 Qed.
 
 Lemma iface_eq_scalar a b : key_val_ok a = true -> iface_eq a b = Ok (scalar_eq a b).
@@ -390,7 +430,9 @@ Qed.
 Lemma key_of_ok cols kvs : row_ok cols (VObj kvs) = true -> key_ok (key_of cols (VObj kvs)) = true.
 Proof.
   unfold row_ok, key_ok, key_of. induction cols as [|c cs IH]; cbn [forallb map snd]; [reflexivity|].
-  intros H. apply andb_true_iff in H. destruct H as [Hc Hcs]. rewrite Hc. apply IH. exact Hcs.
+  intros H. apply andb_true_iff in H. destruct H as [Hc Hcs].
+  unfold col_ok in Hc. unfold key_value. destruct (path_value (gk_path c) (VObj kvs)); [|discriminate].
+  rewrite Hc. apply IH. exact Hcs.
 Qed.
 
 Lemma group_rows_scan cols rows : forall gs,
@@ -400,7 +442,7 @@ Proof.
   induction rows as [|r rs IH]; intros gs Hrows Hgs; cbn [group_rows scan fold_left]; [reflexivity|].
   cbn [rows_ok forallb] in Hrows. apply andb_true_iff in Hrows. destruct Hrows as [Hr Hrs].
   destruct r as [| | | | |kvs]; try discriminate.
-  rewrite group_key_obj. cbn [bind].
+  rewrite group_key_obj by exact Hr. cbn [bind].
   rewrite group_insert_ok by exact Hgs. cbn [bind].
   apply IH; [exact Hrs|]. apply ins_groups_ok; [apply key_of_ok; exact Hr|exact Hgs].
 Qed.
@@ -559,12 +601,69 @@ Definition both_containers (a b : value) : bool :=
   end.
 
 Lemma group_rows_uncomparable c cs kv1 kv2 rest :
-  both_containers (column c (VObj kv1)) (column c (VObj kv2)) = true ->
+  readable (c :: cs) (VObj kv1) = true -> readable (c :: cs) (VObj kv2) = true ->
+  both_containers (key_value c (VObj kv1)) (key_value c (VObj kv2)) = true ->
   group_rows (c :: cs) (VObj kv1 :: VObj kv2 :: rest) [] = Panic.
 Proof.
-  intros H. cbn [group_rows]. rewrite !group_key_obj. cbn [bind group_insert].
+  intros R1 R2 H. cbn [group_rows]. rewrite !group_key_readable by assumption. cbn [bind group_insert].
   cbn [key_of map keys_match].
-  destruct (column c (VObj kv1)), (column c (VObj kv2)); try discriminate; reflexivity.
+  destruct (key_value c (VObj kv1)), (key_value c (VObj kv2)); try discriminate; reflexivity.
+Qed.
+
+(* ---- a grouping column without a value: the query is refused ---- *)
+
+(* the engine's read of the path fails exactly as selector.go Reader does: a key step on a scalar, an index step
+   on an object or a scalar, an index outside the array *)
+Lemma key_reader_stuck p : forall v, path_stuck p v = true -> key_reader p v = Err.
+Proof.
+  induction p as [|st rest IH]; intros v H; [discriminate|].
+  destruct st as [k|i]; destruct v as [|b|f|t|l|kvs]; cbn [path_stuck] in H; try discriminate; try reflexivity.
+  - cbn [key_reader]. apply IH. exact H.
+  - cbn [key_reader].
+    destruct ((0 <=? i)%Z && (i <? Z.of_nat (List.length l))%Z) eqn:Hr.
+    + apply andb_true_iff in Hr. destruct Hr as [H0 H1].
+      apply Z.leb_le in H0. apply Z.ltb_lt in H1.
+      replace (i =? -1)%Z with false by (symmetry; apply Z.eqb_neq; lia).
+      replace (i <? 0)%Z with false by (symmetry; apply Z.ltb_ge; lia).
+      replace (Z.of_nat (List.length l) <=? i)%Z with false by (symmetry; apply Z.leb_gt; lia).
+      cbn [orb]. destruct (nth_error l (Z.to_nat i)) as [y|]; [|discriminate].
+      apply IH. exact H.
+    + destruct (i =? -1)%Z eqn:Hm; [discriminate|].
+      apply andb_false_iff in Hr.
+      replace ((i <? 0)%Z || (Z.of_nat (List.length l) <=? i)%Z) with true; [reflexivity|].
+      symmetry. apply orb_true_iff. destruct Hr as [Hr|Hr].
+      * left. apply Z.ltb_lt. apply Z.leb_gt in Hr. exact Hr.
+      * right. apply Z.leb_le. apply Z.ltb_ge in Hr. exact Hr.
+Qed.
+
+(* the key of a row is not read when one of its columns is stuck (the columns before it have values) *)
+Lemma group_key_stuck pre c post r :
+  readable pre r = true -> path_stuck (gk_path c) r = true -> group_key (pre ++ c :: post) r = Err.
+Proof.
+  unfold readable, group_key. induction pre as [|d pre IH]; cbn [app mapM forallb]; intros Hp Hs.
+  - rewrite (key_reader_stuck _ _ Hs). reflexivity.
+  - apply andb_true_iff in Hp. destruct Hp as [Hd Hp].
+    destruct (path_value (gk_path d) r) as [x|] eqn:Ed; [|discriminate].
+    rewrite (key_reader_path_value _ _ _ Ed). cbn [bind]. rewrite (IH Hp Hs). reflexivity.
+Qed.
+
+(* rows in scope, then a row one of whose grouping columns has no value: no partition is returned *)
+Lemma group_rows_stuck cols good bad rest pre c post :
+  rows_ok cols good = true -> cols = pre ++ c :: post ->
+  readable pre bad = true -> path_stuck (gk_path c) bad = true ->
+  group_rows cols (good ++ bad :: rest) [] = Err.
+Proof.
+  intros Hok -> Hp Hs.
+  assert (G : forall gs, groups_ok gs ->
+            group_rows (pre ++ c :: post) (good ++ bad :: rest) gs = Err).
+  { induction good as [|r rs IH]; intros gs Hgs.
+    - cbn [app group_rows]. rewrite (group_key_stuck _ _ _ _ Hp Hs). reflexivity.
+    - cbn [rows_ok forallb] in Hok. apply andb_true_iff in Hok. destruct Hok as [Hr Hrs].
+      destruct r as [| | | | |kvs]; try discriminate.
+      cbn [app group_rows]. rewrite group_key_obj by exact Hr. cbn [bind].
+      rewrite group_insert_ok by exact Hgs. cbn [bind].
+      apply IH; [exact Hrs|]. apply ins_groups_ok; [apply key_of_ok; exact Hr|exact Hgs]. }
+  apply G. constructor.
 Qed.
 
 (* ================================================================== *)
@@ -611,6 +710,24 @@ Lemma reader_arr k rest l :
 Proof.
   cbn [reader]. f_equal. induction l as [|x l IH]; [reflexivity|].
   cbn [mapM]. rewrite <- IH. reflexivity.
+Qed.
+
+Lemma key_reader_arr k rest l :
+  key_reader (KKey k :: rest) (VArr l) = let! l' := mapM (key_reader (KKey k :: rest)) l in Ok (VArr l').
+Proof.
+  cbn [key_reader]. f_equal. induction l as [|x l IH]; [reflexivity|].
+  cbn [mapM]. rewrite <- IH. reflexivity.
+Qed.
+
+(* key paths made of key steps only are read like a column path *)
+Lemma key_reader_keys ks : forall v, key_reader (map KKey ks) v = reader ks v.
+Proof.
+  induction ks as [|k ks IH]; intros v; [reflexivity|]. cbn [map].
+  induction v as [| | | |l IHl|kvs _] using value_ind'; try reflexivity.
+  - rewrite key_reader_arr, reader_arr. f_equal.
+    induction IHl as [|x l Hx _ IHl']; [reflexivity|].
+    cbn [mapM]. rewrite Hx, IHl'. reflexivity.
+  - cbn [key_reader reader]. apply IH.
 Qed.
 
 Definition obj_rows (ms : list value) : bool :=
@@ -761,33 +878,39 @@ Qed.
 Lemma lookup_star_group_row g : lookup "*" (group_row g) = Some (VArr (snd g)).
 Proof. unfold group_row. apply lookup_obj_set_same. Qed.
 
-Lemma lookup_obj_merge_key c (r : value) cols : forall acc,
-  In c cols -> lookup c (obj_merge acc (key_of cols r)) = Some (column c r).
+Lemma lookup_obj_merge_key (c : gkey) (r : value) cols : forall acc,
+  (forall c', In c' cols -> gk_name c' = gk_name c -> c' = c) ->
+  In c cols -> lookup (gk_name c) (obj_merge acc (key_of cols r)) = Some (key_value c r).
 Proof.
   unfold obj_merge.
-  induction cols as [|c0 cs IH]; intros acc Hin; [destruct Hin|].
+  induction cols as [|c0 cs IH]; intros acc Hun Hin; [destruct Hin|].
   cbn [key_of map fold_left fst snd].
-  destruct (in_dec string_dec c cs) as [Hc|Hc].
-  - apply IH. exact Hc.
-  - destruct Hin as [->|Hin]; [|contradiction].
-    clear IH. fold (key_of cs r).
-    assert (H : forall acc, lookup c acc = Some (column c r) ->
-              lookup c (fold_left (fun a kv => obj_set (fst kv) (snd kv) a) (key_of cs r) acc)
-              = Some (column c r)).
+  destruct (in_dec string_dec (gk_name c) (map gk_name cs)) as [Hc|Hc].
+  - apply in_map_iff in Hc. destruct Hc as (c' & Hn & Hc').
+    assert (c' = c) by (apply Hun; [right; exact Hc'|exact Hn]). subst c'.
+    apply IH; [|exact Hc']. intros c' H1 H2. apply Hun; [right; exact H1|exact H2].
+  - destruct Hin as [->|Hin]; [|exfalso; apply Hc; apply in_map; exact Hin].
+    clear IH Hun. fold (key_of cs r).
+    assert (H : forall acc, lookup (gk_name c) acc = Some (key_value c r) ->
+              lookup (gk_name c) (fold_left (fun a kv => obj_set (fst kv) (snd kv) a) (key_of cs r) acc)
+              = Some (key_value c r)).
     { clear acc. induction cs as [|c1 cs IH]; intros acc Ha; [exact Ha|].
       cbn [key_of map fold_left fst snd]. apply IH.
       - intros Hx. apply Hc. right. exact Hx.
-      - rewrite lookup_obj_set_other; [exact Ha|]. intros ->. apply Hc. left. reflexivity. }
+      - rewrite lookup_obj_set_other; [exact Ha|]. intros Heq. apply Hc. left. symmetry. exact Heq. }
     apply H. apply lookup_obj_set_same.
 Qed.
 
-(* the grouping columns of a group's output row carry the group's key values *)
-Lemma lookup_key_group_row cols (r : value) ms c :
-  In c cols -> c <> "*"%string ->
-  lookup c (group_row (key_of cols r, ms)) = Some (column c r).
+(* the grouping columns of a group's output row carry the group's key values, under the names BuildGroup
+   registered them with (one name = one column: the group definition of the code is a map keyed by that text) *)
+Lemma lookup_key_group_row cols (r : value) ms (c : gkey) :
+  names_unambiguous cols ->
+  In c cols -> gk_name c <> "*"%string ->
+  lookup (gk_name c) (group_row (key_of cols r, ms)) = Some (key_value c r).
 Proof.
-  intros Hin Hne. unfold group_row, obj_of_list. cbn [fst snd].
-  rewrite lookup_obj_set_other by exact Hne. apply lookup_obj_merge_key. exact Hin.
+  intros Hun Hin Hne. unfold group_row, obj_of_list. cbn [fst snd].
+  rewrite lookup_obj_set_other by exact Hne. apply lookup_obj_merge_key; [|exact Hin].
+  intros c' H1 H2. apply Hun; assumption.
 Qed.
 
 (* ================================================================== *)
@@ -1151,11 +1274,29 @@ Qed.
 
 Lemma exec_group_by_uncomparable (E : env stmt) s c cs kv1 kv2 rest :
   s_group s = c :: cs ->
-  both_containers (column c (VObj kv1)) (column c (VObj kv2)) = true ->
+  readable (c :: cs) (VObj kv1) = true -> readable (c :: cs) (VObj kv2) = true ->
+  both_containers (key_value c (VObj kv1)) (key_value c (VObj kv2)) = true ->
   exec_group_by E s (VObj kv1 :: VObj kv2 :: rest) = Panic.
 Proof.
-  intros Hg Hb. eapply exec_group_by_panic; [exact Hg|].
-  apply group_rows_uncomparable. exact Hb.
+  intros Hg R1 R2 Hb. eapply exec_group_by_panic; [exact Hg|].
+  apply group_rows_uncomparable; assumption.
+Qed.
+
+Lemma exec_group_by_err (E : env stmt) s rows :
+  group_rows (s_group s) rows [] = Err -> s_group s <> [] -> exec_group_by E s rows = Err.
+Proof.
+  intros He Hn. unfold exec_group_by. destruct (s_group s) as [|c cs]; [congruence|].
+  rewrite He. reflexivity.
+Qed.
+
+Lemma exec_group_by_stuck (E : env stmt) s good bad rest pre c post :
+  rows_ok (s_group s) good = true -> s_group s = pre ++ c :: post ->
+  readable pre bad = true -> path_stuck (gk_path c) bad = true ->
+  exec_group_by E s (good ++ bad :: rest) = Err.
+Proof.
+  intros Hok Hg Hp Hs. apply exec_group_by_err.
+  - eapply group_rows_stuck; eassumption.
+  - rewrite Hg. destruct pre; discriminate.
 Qed.
 
 Section Composite.
@@ -1242,7 +1383,7 @@ End Composite.
 
 Section OnModel.
   Hypothesis FL : FloatEqLaws.
-  Variables (cols : list string) (rows : list value) (gs : list group).
+  Variables (cols : list gkey) (rows : list value) (gs : list group).
   Hypothesis Hok : rows_ok cols rows = true.
   Hypothesis Hgs : group_rows cols rows [] = Ok gs.
 
